@@ -223,7 +223,7 @@ def mutant_refuted(ctx, module, cfg_text_path, label):
     return True
 
 
-def generate(ctx, module, constants, out_name, env=None, heap="4g", timeout=1800):
+def generate(ctx, module, constants, out_name, env=None, heap="6g", timeout=1800):
     """Run a Gen_* module (ASSUME-only, writes ndjson requests to IOEnv.OUT)."""
     cfg = (write_cfg(ctx.path(module + "_" + out_name + ".cfg"), constants=constants) if constants
            else os.path.join(SPEC, "Val.cfg"))
